@@ -26,6 +26,30 @@ class Later(Schema):
     n: int
 
 
+import utype
+
+
+@utype.dataclass
+class DA:
+    later: Optional["Later"] = None
+
+
+class Plain(DA):       # no parser of its own
+    pass
+
+
+@utype.dataclass
+class DC(Plain):
+    x: int = 0
+
+
+try:
+    ok2 = isinstance(DC(later={"n": "1"}).later, Later)
+    print("decorated grandchild over a plain class used first: ok" if ok2 else "decorated grandchild: wrong type")
+except Exception as e:
+    ok2 = False
+    print("decorated grandchild over a plain class used first:", type(e).__name__, str(e).splitlines()[0][:100])
+
 try:
     s = Sub(later={"n": "1"}, more=[{"n": 2}])
     ok = isinstance(s.later, Later) and isinstance(s.more[0], Later)
@@ -33,4 +57,4 @@ try:
 except Exception as e:
     ok = False
     print("Sub used first:", type(e).__name__, str(e).splitlines()[0][:100])
-sys.exit(0 if ok else 1)
+sys.exit(0 if ok and ok2 else 1)
